@@ -2440,6 +2440,10 @@ where
 		lock_output: bool,
 		server_keys: Vec<String>,
 	) -> Result<SwapReq, Error> {
+		// (the hex conversion slices the string by bytes: anything but ASCII has to be refused first)
+		if !commitment.is_ascii() {
+			return Err(Error::CommitDeser(commitment));
+		}
 		let commit =
 			Commitment::from_vec(from_hex(&commitment).map_err(|e| Error::CommitDeser(e))?);
 
@@ -2448,6 +2452,9 @@ where
 
 		let mut keys = vec![];
 		for key in server_keys {
+			if !key.is_ascii() {
+				return Err(Error::ServerKeyDeser(key));
+			}
 			keys.push(SecretKey::from_slice(
 				&secp,
 				&grin_util::from_hex(&key).map_err(|e| Error::ServerKeyDeser(e))?,
